@@ -28,6 +28,8 @@ func main() {
 		cmdEnum(os.Args[2:])
 	case "rand":
 		cmdRand(os.Args[2:])
+	case "rerun":
+		cmdRerun(os.Args[2:])
 	default:
 		die("unknown sub-command %s", os.Args[1])
 	}
@@ -114,6 +116,7 @@ func cmdEnum(args []string) {
 	shard := fs.Int("shard", 0, "shard index")
 	of := fs.Int("of", 1, "number of shards")
 	lOverride := fs.Int("L", 0, "override argv length bound")
+	idBase := fs.Int("idbase", 0, "first case id")
 	fs.Parse(args)
 	defs := readDefs(*fam)
 	f, err := os.Create(*out)
@@ -123,6 +126,7 @@ func cmdEnum(args []string) {
 	w := bufio.NewWriterSize(f, 1<<20)
 	id := 0
 	cases := 0
+	nontrivial := 0
 	for di := range defs {
 		d := &defs[di]
 		L := d.L
@@ -130,6 +134,8 @@ func cmdEnum(args []string) {
 			L = *lOverride
 		}
 		block := [][]byte{}
+		base := gh.Case{Ev: "case", Def: d.ID, Argv: []gh.Tok{}, Disp: d.Disp}
+		baseRaw := gh.RunCase(d, &base).Raw
 		idx := make([]int, 0, L)
 		var rec func()
 		rec = func() {
@@ -139,11 +145,14 @@ func cmdEnum(args []string) {
 				for k, t := range idx {
 					argv[k] = d.Tokens[t]
 				}
-				c := gh.Case{Ev: "case", Def: d.ID, ID: id, Argv: argv, Disp: d.Disp}
+				c := gh.Case{Ev: "case", Def: d.ID, ID: *idBase + id, Argv: argv, Disp: d.Disp}
 				c.Res = gh.RunCase(d, &c)
 				line, _ := json.Marshal(&c)
 				block = append(block, line)
 				cases++
+				if c.Res.Raw != baseRaw {
+					nontrivial++
+				}
 				if c.Res.Hang {
 					writeBlock(w, d, block)
 					w.Flush()
@@ -165,5 +174,5 @@ func cmdEnum(args []string) {
 	}
 	w.Flush()
 	f.Close()
-	fmt.Printf("enum cases=%d\n", cases)
+	fmt.Printf("enum cases=%d nontrivial=%d\n", cases, nontrivial)
 }
